@@ -58,6 +58,14 @@ func verifDir() string {
 	return "/verif"
 }
 
+// outDir: where evidence/ and replay/ are written (VERIF_OUT, default: the verif directory)
+func outDir() string {
+	if d := os.Getenv("VERIF_OUT"); d != "" {
+		return d
+	}
+	return verifDir()
+}
+
 func loadKnown() []KnownFinding {
 	b, err := os.ReadFile(filepath.Join(verifDir(), "known_findings.json"))
 	if err != nil {
@@ -269,7 +277,7 @@ func planWorker(w *WorkerCtx) {
 					}
 				}
 				rf := &ReplayFile{Property: w.Prop, Oracle: mv.Oracle, VerifSeed: int64(w.Seed), Tier: w.Tier, Minimised: true, Kind: "plan", Plan: min, Violation: &mv}
-				res.Replay = WriteReplay(filepath.Join(verifDir(), "replay"), rf, fmt.Sprintf("%d", seed))
+				res.Replay = WriteReplay(filepath.Join(outDir(), "replay"), rf, fmt.Sprintf("%d", seed))
 				res.Violations = []Violation{mv}
 				res.Sample = planSample(min)
 			}
@@ -449,7 +457,7 @@ func cmdCheck(args []string) int {
 			if err != nil && spec.DeathIsViolation && lastBegin != nil {
 				v := Violation{Property: spec.Prop, Oracle: "process-survives", Key: "process-died", Detail: fmt.Sprintf("the worker process died (%v) while executing trial %s: %s", err, string(lastBegin), clip(lastLines(stderr.String(), 12), 1500))}
 				rf := &ReplayFile{Property: spec.Prop, Oracle: v.Oracle, VerifSeed: seed, Tier: *tier, Kind: "c30", Custom: lastBegin, Violation: &v}
-				path := WriteReplay(filepath.Join(verifDir(), "replay"), rf, fmt.Sprintf("died-worker%d", i))
+				path := WriteReplay(filepath.Join(outDir(), "replay"), rf, fmt.Sprintf("died-worker%d", i))
 				mu.Lock()
 				results = append(results, WorkResult{Kind: "item", Violations: []Violation{v}, Replay: path, NonTrivial: true, Shape: "died"})
 				mu.Unlock()
@@ -541,7 +549,7 @@ func aggregate(spec *CheckSpec, tier string, seed int64, results []WorkResult, w
 		for _, v := range spec.Post(extra) {
 			vc := v
 			rf := &ReplayFile{Property: spec.Prop, Oracle: v.Oracle, VerifSeed: seed, Tier: tier, Kind: "post", Violation: &vc}
-			path := WriteReplay(filepath.Join(verifDir(), "replay"), rf, "cross-process")
+			path := WriteReplay(filepath.Join(outDir(), "replay"), rf, "cross-process")
 			viols = append(viols, WorkResult{Violations: []Violation{v}, Replay: path})
 		}
 		for k := range extra {
@@ -605,8 +613,8 @@ func aggregate(spec *CheckSpec, tier string, seed int64, results []WorkResult, w
 		"violations":  len(viols),
 	}
 	b, _ := json.MarshalIndent(ev, "", " ")
-	os.MkdirAll(filepath.Join(verifDir(), "evidence"), 0o755)
-	if err := os.WriteFile(filepath.Join(verifDir(), "evidence", spec.Prop+".json"), b, 0o644); err != nil {
+	os.MkdirAll(filepath.Join(outDir(), "evidence"), 0o755)
+	if err := os.WriteFile(filepath.Join(outDir(), "evidence", spec.Prop+".json"), b, 0o644); err != nil {
 		fmt.Fprintln(os.Stderr, "HARNESS-ERROR: cannot write evidence:", err)
 		return 2
 	}
